@@ -202,7 +202,7 @@ REQUIRED = {
     "C01": _CONC_MODELS + [("linearization search", 20), ("_pair_", 2)],
     "C02": [("exhaustive sequential model", 1), ("random walks of the sequential model", 1), ("trace seed=", 8), ("longsplit=1", 1), ("splitsweep=1", 1)],
     "C03": [("exhaustive sequential model", 1), ("trace seed=", 6), ("mode=deep", 1)],
-    "C04": [("YkConc program", 2), ("YkConc4 config", 2), ("step-level conformance program", 2), ("step-level conformance of split under a parent", 2), ("linearization search", 25), ("_links_", 2), ("_layerfull_pre1", 2)],
+    "C04": [("YkConc program", 2), ("YkConc4 config", 2), ("step-level conformance program", 2), ("step-level conformance of split under a parent", 2), ("linearization search", 25), ("_links_", 2), ("_layerfull_pre1", 2), ("_pair_", 3)],
     "C05": [("exhaustive sequential model", 1), ("mode=linksonly", 2), ("pdrain=", 1), ("ppair=", 1), ("mode=deep", 1)],
     "C06": [("YkConc program C", 1), ("YkConc4 config", 2), ("step-level conformance program C", 1), ("step-level conformance of split under a parent", 2), ("linearization search", 25), ("_links_", 2)],
     "C07": [("YkEpoch", 1), ("epoch trace", 3), ("_stall", 1)],
@@ -217,7 +217,7 @@ REQUIRED = {
     "C16": [("YkLife", 1), ("lifecycle trace", 2)],
     "C17": [("model MC_Version", 2), ("replay of", 1), ("concurrent version-word executions", 3)],
     "C18": [("YkOrder theorems", 1), ("replay of", 1), ("mode=boundary", 1)],
-    "C19": [("YkPerm exhaustive", 1), ("replay of", 1), ("linearization search", 9)],
+    "C19": [("YkPerm exhaustive", 1), ("replay of", 1), ("linearization search", 12)],
     "C20": [("exhaustive sequential model", 1), ("trace seed=", 6), ("valmix=1", 2), ("ascend=", 1)],
 }
 
